@@ -10,6 +10,7 @@ import (
 	"encoding/json"
 	"fmt"
 	"net"
+	"sync"
 	"time"
 
 	"github.com/free5gc/go-upf/internal/report"
@@ -84,6 +85,10 @@ type SMF struct {
 	Rep    *net.UDPAddr // NodeID:8805, where the UPF sends reports
 	Seq    uint32
 	Slots  []*Slot
+
+	// free-running mode only
+	inbox chan []byte
+	mu    sync.Mutex
 }
 
 // Dgram is a datagram a simulated peer produced.
